@@ -26,13 +26,14 @@ def parse(text):
 
 _PRE = re.compile(r"(<pre>.*?</pre>)", re.S)
 _BT = re.compile(r"\s*(</?(?:blockquote|ul|ol|li|p|h[1-6]|hr)(?: [^>]*)?/?>)\s*")
-_NL = re.compile(r"\s+")
+_NL = re.compile(r"[ \t]*\n\s*")
 
 
 def norm(html):
-    """The normalisation of the CommonMark project's own spec-test runner (test/normalize.py):
-    whitespace adjacent to block-level tags is removed and runs of whitespace in text collapse to
-    one space (a soft break with or without a preceding space is the same text) - never inside <pre>."""
+    """Whitespace adjacent to block-level tags is removed; whitespace around a line break inside text
+    collapses to the line break (the CommonMark project's own spec-test normaliser goes further and
+    collapses every whitespace run; pymarkdown keeps the space before a soft break, which the suite
+    pins) - never inside <pre>.  Other whitespace inside text and code spans is compared exactly."""
     parts = _PRE.split(html)
     out = []
     for i, p in enumerate(parts):
@@ -40,7 +41,7 @@ def norm(html):
             out.append(p)
         else:
             p = _BT.sub(lambda m: m.group(1), p)
-            p = _NL.sub(" ", p)
+            p = _NL.sub("\n", p)
             out.append(p.strip())
     return "".join(out)
 
